@@ -195,6 +195,9 @@ class G:
             if r.random() < 0.5:
                 return r.choice(pool)
             out = []
+            if depth > 0 and r.random() < 0.35:
+                # a name before schemas: the positions of the schema alternatives differ from their rank
+                return [r.choice(pool)] + [self.schema(d, depth - 1) for _ in range(r.randrange(1, 3))] + ([r.choice(pool)] if r.random() < 0.3 else [])
             for _ in range(r.randrange(1, 4)):
                 if depth > 0 and r.random() < 0.3:
                     out.append(self.schema(d, depth - 1))
@@ -583,7 +586,7 @@ class RefG(G):
             sub = c[k]
             if isinstance(sub, dict) and "$ref" in sub:
                 continue
-            kind = r.choice(["local", "local", "store", "fetch", "relative", "missing-local", "missing-remote", "recursive", "chain"])
+            kind = r.choice(["local", "local", "store", "fetch", "relative", "missing-local", "missing-remote", "recursive", "chain", "empty-ref"])
             info["kinds"].append(kind)
             name = r.choice(HOSTILE)
             if kind == "local":
@@ -623,6 +626,12 @@ class RefG(G):
                               or (c is root and k in ("items", "additionalProperties", "additionalItems")))
                 if descending:
                     c[k] = {"$ref": "#"}
+            elif kind == "empty-ref":
+                # the empty reference designates the current document; only below an instance-descending applicator
+                descending = (c is root.get("properties") or c is root.get("patternProperties")
+                              or (c is root and k in ("items", "additionalProperties", "additionalItems")))
+                if descending:
+                    c[k] = {"$ref": ""}
         if defs:
             if not isinstance(root.get("definitions"), dict):
                 root["definitions"] = {}
